@@ -68,13 +68,22 @@ for d in sorted(glob.glob(os.path.join(ROOT, "seeded", "*"))):
             "checks": {k: {"exit": v["rc"], "violation_lines": v["violation_lines"], "wall_s": v["wall_s"]} for k, v in r.get("checks", {}).items()},
             "caught_by": r.get("caught_by", [])}
     json.dump(meta, open(os.path.join(d, "meta.json"), "w"), indent=1)
-    rows.append("| seeded/%s | %s | %s | %s | %s |" % (name, prop, what, ", ".join(meta["caught_by"]) or "**none**", "yes" if prop in meta["caught_by"] else "NO"))
-print("| change | breaks | what it does | quick checks that fire | own property's check fires |\n|---|---|---|---|---|")
-print("\n".join(rows))
+    rows.append("| seeded/%s | %s | %s | %s | %s | %s |" % (name, prop, what, needs, ", ".join(meta["checks"].keys()), ", ".join(meta["caught_by"]) or "**none**"))
+t1 = "| change | breaks | what it does | needs, in order to manifest | quick checks run | quick checks that fire |\n|---|---|---|---|---|---|\n" + "\n".join(rows)
+print(t1)
 print()
-print("| re-introduced defect | recorded under | quick checks that fire |\n|---|---|---|")
+t2 = ["| re-introduced defect | quick checks run | quick checks that fire |", "|---|---|---|"]
 for d in sorted(glob.glob(os.path.join(ROOT, "mutants", "revert_*"))):
     rp = os.path.join(d, "result.json")
     try: r = json.load(open(rp))
     except (OSError, ValueError): continue
-    print("| %s | %s | %s |" % (os.path.basename(d), ", ".join(r.get("checks", {}).keys()), ", ".join(r.get("caught_by", [])) or "**none**"))
+    t2.append("| %s | %s | %s |" % (os.path.basename(d), ", ".join(r.get("checks", {}).keys()), ", ".join(r.get("caught_by", [])) or "**none**"))
+print("\n".join(t2))
+import sys
+if "--write-design" in sys.argv:
+    dp = os.path.join(ROOT, "DESIGN.md")
+    ds = open(dp).read()
+    import re as _re
+    ds = _re.sub(r"<!-- TABLE:SEEDS -->.*?<!-- /TABLE:SEEDS -->", lambda m: "<!-- TABLE:SEEDS -->\n" + t1 + "\n<!-- /TABLE:SEEDS -->", ds, flags=_re.S)
+    ds = _re.sub(r"<!-- TABLE:REVERTS -->.*?<!-- /TABLE:REVERTS -->", lambda m: "<!-- TABLE:REVERTS -->\n" + "\n".join(t2) + "\n<!-- /TABLE:REVERTS -->", ds, flags=_re.S)
+    open(dp, "w").write(ds)
